@@ -67,6 +67,7 @@ type c02Layer struct {
 	Prio     []string   `json:"prio"`
 	Cache    string     `json:"cache"`
 	Via      string     `json:"via"`
+	Workers  int        `json:"workers"` // estargz.WithParallelism; 0 = 1
 }
 
 type c02Job struct {
@@ -192,10 +193,16 @@ func c02Build(l c02Layer) (*c02Built, error) {
 	switch l.Comp {
 	case "zstd":
 		cl = tutil.ZstdCompressionWithLevel(zstd.SpeedFastest)()
+	case "exttoc": // gzip blob whose TOC lives outside the blob (estargz/externaltoc)
+		cl = tutil.ExternalTOCGzipCompressionWithLevel(gzip.BestSpeed)()
 	default:
 		cl = tutil.GzipCompressionWithLevel(gzip.BestSpeed)()
 	}
-	opts := []estargz.Option{estargz.WithCompression(cl), estargz.WithParallelism(1)}
+	workers := l.Workers
+	if workers <= 0 {
+		workers = 1
+	}
+	opts := []estargz.Option{estargz.WithCompression(cl), estargz.WithParallelism(workers)}
 	if l.Chunk > 0 {
 		opts = append(opts, estargz.WithChunkSize(l.Chunk))
 	}
@@ -228,10 +235,15 @@ func c02Build(l c02Layer) (*c02Built, error) {
 	if err != nil {
 		return nil, fmt.Errorf("ParseFooter: %w", err)
 	}
-	if tocSize <= 0 {
+	if tocOff >= 0 && tocSize <= 0 {
 		tocSize = b.sr.Size() - tocOff - fsz
 	}
-	jtoc, _, err := cl.ParseTOC(io.NewSectionReader(b.sr, tocOff, tocSize))
+	var jtoc *estargz.JTOC
+	if tocOff < 0 {
+		jtoc, _, err = cl.ParseTOC(nil) // external TOC: provided by the compressor that wrote it
+	} else {
+		jtoc, _, err = cl.ParseTOC(io.NewSectionReader(b.sr, tocOff, tocSize))
+	}
 	if err != nil {
 		return nil, fmt.Errorf("ParseTOC: %w", err)
 	}
@@ -643,7 +655,8 @@ func (in *c02Inst) attr(a *fuse.Attr) map[string]any {
 		in.inos[a.Ino] = ino
 	}
 	return map[string]any{"ino": ino, "mode": int(a.Mode), "size": int(a.Size), "nlink": int(a.Nlink), "uid": int(a.Uid), "gid": int(a.Gid),
-		"major": int(unix.Major(uint64(a.Rdev))), "minor": int(unix.Minor(uint64(a.Rdev))), "mtime": int(a.Mtime)}
+		// the served device number: raw rdev (hex) and the pair the kernel decodes from it (unix.Major / unix.Minor)
+		"rdev": fmt.Sprintf("%#x", a.Rdev), "major": int(unix.Major(uint64(a.Rdev))), "minor": int(unix.Minor(uint64(a.Rdev))), "mtime": int(a.Mtime)}
 }
 
 func c02Path(v any) []string {
@@ -656,7 +669,7 @@ func c02Path(v any) []string {
 	return p
 }
 
-var c02NoAttr = map[string]any{"ino": 0, "mode": 0, "size": 0, "nlink": 0, "uid": 0, "gid": 0, "major": 0, "minor": 0, "mtime": 0}
+var c02NoAttr = map[string]any{"rdev": "0x0", "ino": 0, "mode": 0, "size": 0, "nlink": 0, "uid": 0, "gid": 0, "major": 0, "minor": 0, "mtime": 0}
 
 // step executes one step of a walk and returns the event to record
 func (in *c02Inst) step(s map[string]any) map[string]any {
